@@ -31,6 +31,9 @@ ASSUMPTIONS = ["thresholds chosen so that no attainable tail probability coincid
 
 PAL = [[0.25, 0.25, 0.25, 0.25], [0.97, 0.01, 0.01, 0.01], [1 / 3., 1 / 3., 1 / 3., 0.0], [0.5, 0.5, 0.0, 0.0], [0.7, 0.1, 0.1, 0.1],
        [0.5, 0.25, 0.125, 0.125], [0.26, 0.24, 0.25, 0.25]]
+# (columns are probability vectors: every column has an entry >= 0.25, so an unknown character - contributing 0 - never scores above the
+#  best letter and a window score never leaves the motif's own table.  With unnormalised weight columns such as [0.1,0.1,0.1,0.1] the pinned
+#  code looks the p-value up beyond the table; that input class is outside the property's PWMs and is not enumerated.)
 MOTIF_SETS = [
     [[1, 1, 1]], [[4]], [[1, 4], [5, 1, 3]], [[1, 1, 1, 1], [4, 4]], [[3, 5], [1], [2, 4, 1], [6, 1]], [[5, 5, 1, 4]],
     [[1, 4, 1], [4, 1], [5, 4, 4]],
@@ -222,7 +225,9 @@ def run_scan(rec, sh, tier, seed):
     md = motif_dict(mi)
     motifs = [(n, p.numpy()) for n, p in md.items()]
     names = [n for n, _ in motifs]
-    thrs = (0.3, 0.05, 0.01) if tier == "quick" else (0.3, 0.05, 0.01, 1e-4)
+    # 0.25 / 0.0625 / 0.015625 coincide exactly with the tail probability 4^-w of a unique consensus of width 1 / 2 / 3: a hit's p-value must
+    # lie strictly below the threshold
+    thrs = (0.3, 0.05, 0.01, 0.25, 0.0625, 0.015625) if tier == "quick" else (0.3, 0.05, 0.01, 1e-4, 0.5, 0.25, 0.0625, 0.015625, 2.0 ** -8)
     n_hits = n_last = 0
     for thr in thrs:
         for bs in (0.1, 0.5):
